@@ -226,8 +226,12 @@ fn check(id: &str, tier: Tier) -> i32 {
 
     // vacuity guards (not evaluated when a worker died inside the subject: its counters are lost,
     // and the crash itself is reported as a violation)
+    // ... nor when violations were found: a broken subject may never reach the guarded situation,
+    // and the violations are replayable evidence by themselves
     let crashed = vio.keys().any(|k| k.starts_with("abort|"));
-    for g in p.guards.iter().filter(|_| !crashed) {
+    let kf0 = findings::load(&root.join("known_findings.json")).ok();
+    let has_unknown = vio.values().any(|v| kf0.as_ref().map(|k| k.matching(id, v).is_none()).unwrap_or(true));
+    for g in p.guards.iter().filter(|_| !crashed && !has_unknown) {
         if merged.guards.get(*g).copied().unwrap_or(0) == 0 {
             machinery.push(format!("vacuity guard '{g}' never witnessed"));
         }
